@@ -9,5 +9,7 @@ INVARIANT LockedChain
 INVARIANT TagIsInnermost
 INVARIANT NoInterruptInEndedBlock
 INVARIANT BlockCompletesAfterEnd
+INVARIANT MacroRunsOncePerCall
+INVARIANT RecursiveCallFails
 PROPERTY NoBodyInEndedBlock
 CHECK_DEADLOCK FALSE
